@@ -146,6 +146,29 @@ def work(case):
                 if fail is None and any(k2[2] == r.run_id and k2[0] == r.phenomenon_name and k2[1] == r.pattern_name
                                         for k2 in after):
                     fail = bad("finished-still-active", "run %s finished but is still active" % r.run_id)
+        # what this instance publishes about a run never lies behind where the run already was
+        if op[0] == "local":
+            for r in comp + halt + upd:
+                key = (r.phenomenon_name, r.pattern_name, r.run_id)
+                if fail is None and key in before:
+                    n0 = sum(len(es) for _, es in before[key][1])
+                    n1 = sum(len(es) for _, es in hist_list(r.history))
+                    if r.block_index < before[key][0] or n1 < n0:
+                        fail = bad("announced-position-behind-run",
+                                   "run %s was at block %d with %d events before this event, and is announced at block %d with "
+                                   "%d events: its published position moved backwards" % (r.run_id, before[key][0], n0, r.block_index, n1),
+                                   dict(before=before[key], announced=(r.block_index, hist_list(r.history))))
+        if fail is None:
+            try:
+                snap = dec.snapshot()[2]
+            except Exception:    # noqa (not this oracle's concern)
+                snap = []
+            for r in snap:
+                key = (r.phenomenon_name, r.pattern_name, r.run_id)
+                if fail is None and key in after and (r.block_index, hist_list(r.history)) != after[key]:
+                    fail = bad("snapshot-differs-from-run",
+                               "snapshot() publishes run %s at %r while the run is at %r" %
+                               (r.run_id, (r.block_index, hist_list(r.history)), after[key]))
         # frozen snapshots
         for obj, text in published:
             if fail is None and obj.to_json_str() != text:
